@@ -52,9 +52,12 @@ func init() {
 	reg("(time.Time).Sub", func(vc *VC, fr *Frame, st *State, call *ssa.CallCommon, args []Val, rt types.Type) Val {
 		t, u := args[0], args[1]
 		ds := vc.define("dsec", sBV64, app("bvsub", t.L[0], u.L[0]))
-		vc.oblige(st, "pre@time.Time.Sub", "range", and(app("bvslt", ds, bvLit(64, 1<<32)), app("bvsgt", ds, app("bvneg", bvLit(64, 1<<32)))), call.Pos(), vc.safetyProps)
-		res := vc.define("dur", sBV64, app("bvadd", app("bvmul", ds, e9), app("bvsub", t.L[1], u.L[1])))
-		vc.durParts[res] = [2]string{ds, vc.define("dns", sBV64, app("bvsub", t.L[1], u.L[1]))}
+		// exact while the difference is below 2^32 seconds (far inside Duration's range); beyond that
+		// time.Sub saturates: the result is left unspecified
+		inRange := and(app("bvslt", ds, bvLit(64, 1<<32)), app("bvsgt", ds, app("bvneg", bvLit(64, 1<<32))))
+		exact := app("bvadd", app("bvmul", ds, e9), app("bvsub", t.L[1], u.L[1]))
+		res := vc.define("dur", sBV64, ite(inRange, exact, vc.freshConst("dursat", sBV64)))
+		vc.durParts[res] = [2]string{ite(inRange, ds, vc.freshConst("dsecsat", sBV64)), ite(inRange, vc.define("dns", sBV64, app("bvsub", t.L[1], u.L[1])), vc.freshConst("dnssat", sBV64))}
 		return Val{T: rt, L: []string{res}}
 	})
 	reg("(time.Time).Equal", func(vc *VC, fr *Frame, st *State, call *ssa.CallCommon, args []Val, rt types.Type) Val {
